@@ -131,7 +131,19 @@ def enumerated(th, tier):
                 S.append(('mul_1', n, c, v))
     return S
 
+def pow2_specs(rng, n):
+    # x = 2^a (+ a small low part), y = 2^b, w shorter than x: the high part of x*y is an exact multiple of B^k, so a subtraction of absolute
+    # values borrows through zero limbs (A73: --enable-assert's checked MPN_DECR_U with too short a size aborts there)
+    for i in range(n):
+        for fn in ('mpz_addmul_ui', 'mpz_submul_ui', 'mpz_addmul', 'mpz_submul'):
+            yield ('aorsmul_p2', fn, rng.getrandbits(48))
+
+def c14_priority(rng, tier):
+    return pow2_specs(rng, 6)
+
 def specs(rng, tier, wid, nw, env):
+    if wid == 0:
+        for sp in pow2_specs(rng, 40 if tier == 'quick' else 400): yield sp
     th = env.th
     E = enumerated(th, tier)
     # big cases first so that the slowest work is spread evenly
@@ -262,6 +274,19 @@ def build(spec, env):
             v, _ = split_reply(rep[4])
             if I(v[0]) != w + sign * a * b: return [('%s:wrong:%s' % (fn, alias), 'mode=%s w=%s a=%s b=%s got=%s' % (mode, hx(w)[:60], hx(a)[:60], hx(b)[:60], v[0][:60]))]
         return Case(cmds, check, 1, (fn, szb(wn), szb(un), szb(vn), mode, sg, alias), trivial=(a == 0 or b == 0))
+    if kind == 'aorsmul_p2':
+        fn = spec[1]; ui = fn.endswith('_ui'); sign = 1 if 'addmul' in fn else -1
+        xs = r.randint(2, 6); j = r.choice([0, 1, 32, 63]); x = (1 << (64 * (xs - 1) + j)) + r.choice([0, 0, 0, 1, r.getrandbits(40)])
+        y = 1 << r.choice([64 - j if j else 63, 63, 32, 1, 64 - j if j else 1])
+        if y >= 1 << 64: y = 1 << 63
+        w = r.choice([1, 5, r.getrandbits(64) | 1, gen.nat(r, r.randint(1, xs - 1))])
+        x *= r.choice([1, -1]); w *= r.choice([1, -1]); yv = y if ui else y * r.choice([1, -1])
+        if ui: cmds = ['z Z0 %s' % hx(w), 'z Z1 %s' % hx(x), 'shrink Z0', 'c %s Z0 Z1 #%d' % (fn, y)]
+        else: cmds = ['z Z0 %s' % hx(w), 'z Z1 %s' % hx(x), 'z Z2 %s' % hx(yv), 'shrink Z0', 'c %s Z0 Z1 Z2' % fn]
+        def check(rep, w=w, x=x, yv=yv, sign=sign, fn=fn):
+            v, _ = split_reply(rep[len(cmds) - 1])
+            if I(v[0]) != w + sign * x * yv: return [('%s:wrong' % fn, 'pow2 shape w=%s x=%s y=%s got=%s' % (hx(w)[:40], hx(x)[:60], hx(yv), v[0][:60]))]
+        return Case(cmds, check, 1, (fn, 'pow2', xs, j, w < 0, x < 0))
     if kind == 'aorsmul_ui':
         _, fn, wn, un, mode, sg, alias, _s = spec
         a = gen.signed(r, un, None, 0.0) * (-1 if sg & 1 else 1)
